@@ -2558,6 +2558,7 @@ func writeFuncs(repo string, trieFiles []*ast.File, info *types.Info, out string
 	}
 	// whole functions of the query path (W-mode, below)
 	writeWhole(&b, info, trieFiles, wTargets)
+	writeLegacy(&b, repo)
 	b.WriteString("end Generated\n")
 	must(os.WriteFile(out, []byte(b.String()), 0o644))
 	fmt.Printf("funcs written: %d bytes\n", b.Len())
@@ -2653,9 +2654,30 @@ func (a wty) String() string {
 }
 
 type wfield struct {
-	name string
-	ty   wty
-	goTy string
+	name     string
+	ty       wty
+	goTy     string
+	embedded bool
+}
+
+// promoted: the field `name` of struct `sname` reached through embedded struct values (depth first,
+// in declaration order; Go rejects an ambiguous selector at compile time): the path and the field
+func (c *wctx) promoted(sname, name string) ([]string, wfield, bool) {
+	s := c.structs[sname]
+	if s == nil {
+		return nil, wfield{}, false
+	}
+	if f, ok := s.field(name); ok {
+		return nil, f, true
+	}
+	for _, e := range s.fields {
+		if e.embedded {
+			if p, f, ok := c.promoted(e.ty.name, name); ok {
+				return append([]string{e.name}, p...), f, true
+			}
+		}
+	}
+	return nil, wfield{}, false
 }
 
 type wstruct struct {
@@ -2730,13 +2752,17 @@ var (
 )
 
 var wExterns = map[string]wext{
-	"bitmap.Rank64":      {"github.com/openacid/low/bitmap", "Go.rank64", []wty{wL64, wL32, wI32}, []wty{wI32, wI32}, true},
-	"bitmap.Rank128":     {"github.com/openacid/low/bitmap", "Go.rank128", []wty{wL64, wL32, wI32}, []wty{wI32, wI32}, true},
-	"bitmap.Select32R64": {"github.com/openacid/low/bitmap", "Go.select32R64", []wty{wL64, wL32, wL32, wI32}, []wty{wI32, wI32}, true},
-	"bitstr.Len":         {"github.com/openacid/low/bitstr", "Go.bitstrLen", []wty{wByts}, []wty{wI32}, true},
-	"bits.OnesCount64":   {"math/bits", "Go.popcount64", []wty{wU64}, []wty{wI64}, false},
-	"bytes.Equal":        {"bytes", "Go.bytesEqual", []wty{wByts, wByts}, []wty{wBool}, false},
-	"bytes.Compare":      {"bytes", "Go.bytesCompare", []wty{wByts, wByts}, []wty{wI64}, false},
+	"bitmap.Rank64":       {"github.com/openacid/low/bitmap", "Go.rank64", []wty{wL64, wL32, wI32}, []wty{wI32, wI32}, true},
+	"bitmap.Rank128":      {"github.com/openacid/low/bitmap", "Go.rank128", []wty{wL64, wL32, wI32}, []wty{wI32, wI32}, true},
+	"bitmap.Select32R64":  {"github.com/openacid/low/bitmap", "Go.select32R64", []wty{wL64, wL32, wL32, wI32}, []wty{wI32, wI32}, true},
+	"bitstr.Len":          {"github.com/openacid/low/bitstr", "Go.bitstrLen", []wty{wByts}, []wty{wI32}, true},
+	"bits.OnesCount64":    {"math/bits", "Go.popcount64", []wty{wU64}, []wty{wI64}, false},
+	"bytes.Equal":         {"bytes", "Go.bytesEqual", []wty{wByts, wByts}, []wty{wBool}, false},
+	"bytes.Compare":       {"bytes", "Go.bytesCompare", []wty{wByts, wByts}, []wty{wI64}, false},
+	"bits.TrailingZeros8": {"math/bits", "Go.trailingZeros8", []wty{wU8}, []wty{wI64}, false},
+	"bitstr.New":          {"github.com/openacid/low/bitstr", "Go.bitstrNew", []wty{wByts, wI32, wI32}, []wty{wByts}, true},
+	"bitmap.SafeGet1":     {"github.com/openacid/low/bitmap", "Go.safeGet1", []wty{wL64, wI32}, []wty{wU64}, true},
+	"bitmap.Getw":         {"github.com/openacid/low/bitmap", "Go.getw", []wty{wL64, wI32, wI32}, []wty{wU64}, true},
 }
 
 func (c *wctx) typeOf(t types.Type) (wty, bool) {
@@ -2793,6 +2819,11 @@ func (c *wctx) structOf(n *types.Named) *wstruct {
 	for i := 0; i < st.NumFields(); i++ {
 		f := st.Field(i)
 		ft, ok := c.typeOf(f.Type())
+		if f.Embedded() && ok && ft.k == wkStruct && !strings.HasPrefix(f.Name(), "XXX_") {
+			// an embedded struct VALUE is a field named like its type; its fields are promoted (see promoted)
+			s.fields = append(s.fields, wfield{name: f.Name(), ty: ft, goTy: "embedded " + types.TypeString(f.Type(), func(*types.Package) string { return "" }), embedded: true})
+			continue
+		}
 		if !ok || f.Embedded() || strings.HasPrefix(f.Name(), "XXX_") {
 			// (XXX_…: bookkeeping fields of the protobuf runtime, no function of the package reads them)
 			s.skipped = append(s.skipped, f.Name())
@@ -2916,6 +2947,15 @@ type wvar struct {
 	// a local `x := p.f.g` of pointer type that the function writes through: every use of x stands
 	// for the path expression (see aliasDefs)
 	alias ast.Expr
+	// a local `x := P[lo:hi]` that is the destination of a later copy(x, …): x is a VIEW of P; the
+	// bounds are kept in temporaries; after the copy x must not be read again
+	view *wview
+	dead bool
+}
+
+type wview struct {
+	base   ast.Expr
+	lo, hi string
 }
 
 type wtr struct {
@@ -2938,6 +2978,8 @@ type wtr struct {
 	// locals created by `x := make([]T, n)` whose elements may be assigned
 	made   map[types.Object]bool
 	madeOK map[types.Object]bool // … and that are only indexed, measured or passed to calls
+	// locals `x := P[lo:hi]` that are the destination of a copy(x, …): definition → P
+	viewDefs map[types.Object]ast.Expr
 }
 
 func (w *wtr) fail(n ast.Node, why string) {
@@ -3079,6 +3121,9 @@ func (w *wtr) expr(e ast.Expr, want *wty) (string, wty) {
 			if v.alias != nil {
 				return w.expr(v.alias, want)
 			}
+			if v.dead {
+				w.fail(e, "read of a slice view after copy() into it")
+			}
 			return v.name, v.ty
 		}
 		w.fail(e, "identifier that is neither a parameter nor a local")
@@ -3098,7 +3143,14 @@ func (w *wtr) expr(e ast.Expr, want *wty) (string, wty) {
 		}
 		f, ok := w.c.structs[ty.name].field(x.Sel.Name)
 		if !ok {
-			w.fail(e, "field that is not represented")
+			var path []string
+			path, f, ok = w.c.promoted(ty.name, x.Sel.Name)
+			if !ok {
+				w.fail(e, "field that is not represented")
+			}
+			for _, p := range path {
+				s += "." + leanName(p)
+			}
 		}
 		return s + "." + leanName(f.name), f.ty
 	case *ast.IndexExpr:
@@ -3507,6 +3559,22 @@ func (w *wtr) call(x *ast.CallExpr) ([]string, []wty) {
 			}
 		}
 	}
+	// endian.Uint16 / Uint32 / Uint64(b) with `endian` a variable that is only ever binary.LittleEndian
+	if sel, ok := x.Fun.(*ast.SelectorExpr); ok && len(x.Args) == 1 {
+		if id, ok := sel.X.(*ast.Ident); ok {
+			if v, isVar := w.obj(id).(*types.Var); isVar && w.c.isLEVar(v) {
+				n := map[string]int{"Uint16": 2, "Uint32": 4, "Uint64": 8}[sel.Sel.Name]
+				if n == 0 {
+					w.fail(x, "method of binary.LittleEndian without a specification")
+				}
+				a, aty := w.expr(x.Args[0], &wByts)
+				if aty != wByts {
+					w.fail(x.Args[0], "argument of "+sel.Sel.Name)
+				}
+				return []string{w.bind(fmt.Sprintf("Go.uintLEChk %d %s", n, wArg(a)))}, []wty{{k: wkInt, it: intTy{8 * n, false}}}
+			}
+		}
+	}
 	// newBM(indexes, capa, "r64"): variadic options, `range`, `switch` — not translated; ASSUMED
 	// specification Go.newBM, accepted only while the text of newBM / indexit is the specified one
 	if id, ok := x.Fun.(*ast.Ident); ok && id.Name == "newBM" {
@@ -3651,6 +3719,59 @@ func (w *wtr) call(x *ast.CallExpr) ([]string, []wty) {
 	return outs, callee.results
 }
 
+func isBinaryLE(info *types.Info, e ast.Expr) bool {
+	sel, ok := e.(*ast.SelectorExpr)
+	if !ok || sel.Sel.Name != "LittleEndian" {
+		return false
+	}
+	id, ok := sel.X.(*ast.Ident)
+	if !ok {
+		return false
+	}
+	pn, ok := info.Uses[id].(*types.PkgName)
+	return ok && pn.Imported() != nil && pn.Imported().Path() == "encoding/binary"
+}
+
+// isLEVar: a variable (package level or local) with exactly one definition, `= binary.LittleEndian`,
+// and no other assignment
+func (c *wctx) isLEVar(o types.Object) bool {
+	defs, other := 0, 0
+	for _, f := range c.files {
+		ast.Inspect(f, func(n ast.Node) bool {
+			switch a := n.(type) {
+			case *ast.ValueSpec:
+				for i, nm := range a.Names {
+					if c.info.Defs[nm] == o {
+						if len(a.Values) > i && isBinaryLE(c.info, a.Values[i]) {
+							defs++
+						} else {
+							other++
+						}
+					}
+				}
+			case *ast.AssignStmt:
+				for i, l := range a.Lhs {
+					id, ok := l.(*ast.Ident)
+					if !ok {
+						continue
+					}
+					if c.info.Defs[id] == o {
+						if len(a.Rhs) == len(a.Lhs) && isBinaryLE(c.info, a.Rhs[i]) {
+							defs++
+						} else {
+							other++
+						}
+					} else if c.info.Uses[id] == o {
+						other++
+					}
+				}
+			}
+			return true
+		})
+	}
+	return defs == 1 && other == 0
+}
+
 func (w *wtr) addExtra(name string) {
 	for _, e := range w.f.extra {
 		if e == name {
@@ -3731,6 +3852,85 @@ func (w *wtr) callNewBM(x *ast.CallExpr) ([]string, []wty) {
 	t1, t2 := w.fresh(), w.fresh()
 	w.pre = append(w.pre, fmt.Sprintf("let (%s, %s) ← Go.newBMr64 %s %s", t1, t2, wArg(idx), wArg(capa)))
 	return []string{fmt.Sprintf("(some ({ Words := %s, RankIndex := %s, SelectIndex := [] } : Bitmap))", t1, t2)}, []wty{rt}
+}
+
+// copyStmt: copy(x, src) with x a view `P[lo:hi]`: the elements of P from lo on are replaced by the
+// first min(hi-lo, len src) elements of src
+func (w *wtr) copyStmt(c *ast.CallExpr) []string {
+	if len(c.Args) != 2 {
+		w.fail(c, "copy")
+	}
+	id, ok := c.Args[0].(*ast.Ident)
+	if !ok {
+		w.fail(c, "copy into something that is not a slice view `x := P[lo:hi]`")
+	}
+	o := w.obj(id)
+	v, ok := w.env[o]
+	if !ok || o == nil || v.view == nil || v.dead {
+		w.fail(c, "copy into something that is not a slice view `x := P[lo:hi]`")
+	}
+	srcv, sty := w.expr(c.Args[1], &v.ty)
+	if sty != v.ty {
+		w.fail(c, "copy: element types")
+	}
+	cur, cty := w.expr(v.view.base, nil)
+	if cty != v.ty {
+		w.fail(c, "copy: type of the base")
+	}
+	lines := w.takePre()
+	p := w.place(v.view.base, false)
+	lines = append(lines, w.store(p, fmt.Sprintf("(Go.copyInto %s %s %s %s)", wArg(cur), v.view.lo, v.view.hi, wArg(srcv)), cty, c)...)
+	v.dead = true
+	w.env[o] = v
+	return lines
+}
+
+// viewDefsOf: the locals `x := P[lo:hi]` (defined once, never assigned again) that are the destination
+// of a copy(x, …) statement, with P.  No other statement of the function may assign to the variable at
+// the root of P (the view would then refer to the old backing array).
+func viewDefsOf(info *types.Info, fd *ast.FuncDecl) map[types.Object]ast.Expr {
+	dst := map[types.Object]bool{}
+	ast.Inspect(fd.Body, func(n ast.Node) bool {
+		if es, ok := n.(*ast.ExprStmt); ok {
+			if c, ok := es.X.(*ast.CallExpr); ok && len(c.Args) == 2 {
+				if f, ok := c.Fun.(*ast.Ident); ok && f.Name == "copy" && info.Uses[f] == types.Universe.Lookup("copy") {
+					if id, ok := c.Args[0].(*ast.Ident); ok && info.Uses[id] != nil {
+						dst[info.Uses[id]] = true
+					}
+				}
+			}
+		}
+		return true
+	})
+	defs := map[types.Object]ast.Expr{}
+	bad := map[types.Object]bool{}
+	ast.Inspect(fd.Body, func(n ast.Node) bool {
+		if a, ok := n.(*ast.AssignStmt); ok {
+			for _, l := range a.Lhs {
+				id, ok := l.(*ast.Ident)
+				if !ok {
+					continue
+				}
+				if o := info.Defs[id]; o != nil && dst[o] && a.Tok == token.DEFINE && len(a.Lhs) == 1 && len(a.Rhs) == 1 {
+					if se, ok := a.Rhs[0].(*ast.SliceExpr); ok {
+						if _, dup := defs[o]; dup {
+							bad[o] = true
+						}
+						defs[o] = se.X
+						continue
+					}
+				}
+				if o := info.Uses[id]; o != nil && dst[o] {
+					bad[o] = true
+				}
+			}
+		}
+		return true
+	})
+	for o := range bad {
+		delete(defs, o)
+	}
+	return defs
 }
 
 // pathOf: a place `v.f.g…` rooted at a struct variable (aliases expanded): the variable and the fields
@@ -3912,6 +4112,13 @@ func (w *wtr) assigned(stmts []ast.Stmt) []wvar {
 			case *ast.IncDecStmt:
 				mark(a.X)
 			case *ast.CallExpr:
+				if f, ok := a.Fun.(*ast.Ident); ok && f.Name == "copy" && len(a.Args) == 2 {
+					if id, ok := a.Args[0].(*ast.Ident); ok {
+						if p, ok := w.viewDefs[w.obj(id)]; ok && w.obj(id) != nil {
+							mark(p)
+						}
+					}
+				}
 				if f := w.calleeOf(a); f != nil {
 					args := a.Args
 					if _, isSel := a.Fun.(*ast.SelectorExpr); isSel {
@@ -4069,6 +4276,9 @@ func (w *wtr) block(stmts []ast.Stmt, k func() []string) []string {
 		}
 		if strings.HasPrefix(src(c.Fun), "must.Be.") {
 			return next() // a debug assertion (build tag `debug`): no effect
+		}
+		if id, ok := c.Fun.(*ast.Ident); ok && id.Name == "copy" && w.obj(id) == types.Universe.Lookup("copy") {
+			return append(w.copyStmt(c), next()...)
 		}
 		w.call(c) // results are dropped; updated parameters are rebound
 		return append(w.takePre(), next()...)
@@ -4383,6 +4593,9 @@ func (w *wtr) assignStmt(x *ast.AssignStmt) []string {
 		p := w.place(x.Lhs[0], define)
 		if p.def != nil {
 			o := w.c.info.Defs[p.def]
+			if isBinaryLE(w.c.info, x.Rhs[0]) && o != nil && w.c.isLEVar(o) {
+				return nil // endian := binary.LittleEndian: its methods are translated by specification
+			}
 			if a, ok := w.aliasDefs[o]; ok && o != nil && a == x.Rhs[0] {
 				// x := p.f.g, and the function writes through x: x stands for the path.  The pointers
 				// on the path are dereferenced here (as Go does); they are not assigned while x lives.
@@ -4395,6 +4608,28 @@ func (w *wtr) assignStmt(x *ast.AssignStmt) []string {
 				w.declare(p.def, ty)
 				v := w.env[o]
 				v.alias = x.Rhs[0]
+				w.env[o] = v
+				return lines
+			}
+			if base, ok := w.viewDefs[o]; ok && o != nil {
+				se, ok := x.Rhs[0].(*ast.SliceExpr)
+				if !ok || se.X != base || se.Low == nil || se.High == nil || se.Slice3 {
+					w.fail(x, "slice view")
+				}
+				w.pathOf(base) // the base is a place rooted at a struct variable
+				a, aty := w.expr(se.X, nil)
+				lo, lty := w.expr(se.Low, &wI64)
+				hi, hty := w.expr(se.High, &wI64)
+				if aty.k != wkList || lty != hty || lty.k != wkInt || !lty.it.signed {
+					w.fail(x, "slice view")
+				}
+				lines := w.takePre()
+				tl, th, tv := w.fresh(), w.fresh(), w.fresh()
+				lines = append(lines, fmt.Sprintf("let %s : Nat := %s", tl, lo), fmt.Sprintf("let %s : Nat := %s", th, hi),
+					fmt.Sprintf("let %s ← Go.sliceS %d %s %s %s", tv, lty.it.w, wArg(a), tl, th))
+				lines = append(lines, fmt.Sprintf("let %s : %s := %s", w.declare(p.def, aty), aty.lean(), tv))
+				v := w.env[o]
+				v.view = &wview{base: base, lo: tl, hi: th}
 				w.env[o] = v
 				return lines
 			}
@@ -4633,7 +4868,7 @@ func (c *wctx) usesLoop(fd *ast.FuncDecl, seen map[*ast.FuncDecl]bool) bool {
 // aliasDefsOf: the locals `x := p.f.g` of type pointer-to-struct through which the function assigns
 // (`x.h = …`), with their defining path.  Such a local is defined once, never assigned again and its
 // address is not taken; every use of it is translated as the path it stands for.
-func aliasDefsOf(info *types.Info, fd *ast.FuncDecl) map[types.Object]ast.Expr {
+func aliasDefsOf(info *types.Info, fd *ast.FuncDecl, views map[types.Object]ast.Expr) map[types.Object]ast.Expr {
 	written := map[types.Object]bool{}
 	base := func(e ast.Expr) types.Object {
 		for {
@@ -4677,6 +4912,12 @@ func aliasDefsOf(info *types.Info, fd *ast.FuncDecl) map[types.Object]ast.Expr {
 		}
 		return true
 	})
+	for _, p := range views {
+		// copy(x, …) with x a view of p.f: a write through p
+		if o := base(p); o != nil {
+			written[o] = true
+		}
+	}
 	defs := map[types.Object]ast.Expr{}
 	bad := map[types.Object]bool{}
 	ast.Inspect(fd.Body, func(n ast.Node) bool {
@@ -4774,7 +5015,8 @@ func (c *wctx) translate(key string, fd *ast.FuncDecl) (*wfunc, string) {
 	f := &wfunc{key: key, lean: key}
 	w := &wtr{c: c, f: f, fd: fd, env: map[types.Object]wvar{}, live: map[string]types.Object{},
 		made: map[types.Object]bool{}}
-	w.aliasDefs = aliasDefsOf(c.info, fd)
+	w.viewDefs = viewDefsOf(c.info, fd)
+	w.aliasDefs = aliasDefsOf(c.info, fd, w.viewDefs)
 	w.madeOK = madeLocalsOf(c.info, fd)
 	ast.Inspect(fd.Body, func(n ast.Node) bool {
 		switch n.(type) {
@@ -4913,6 +5155,15 @@ func (c *wctx) translate(key string, fd *ast.FuncDecl) (*wfunc, string) {
 				}
 			}
 		case *ast.CallExpr:
+			if f, ok := a.Fun.(*ast.Ident); ok && f.Name == "copy" && len(a.Args) == 2 {
+				if id, ok := a.Args[0].(*ast.Ident); ok {
+					if p, ok := w.viewDefs[w.obj(id)]; ok && w.obj(id) != nil {
+						if i := pidx(p); i >= 0 {
+							mut[i] = true
+						}
+					}
+				}
+			}
 			if cf := w.calleeOf(a); cf != nil {
 				args := a.Args
 				if sel, isSel := a.Fun.(*ast.SelectorExpr); isSel {
@@ -4979,6 +5230,55 @@ func (c *wctx) translate(key string, fd *ast.FuncDecl) (*wfunc, string) {
 
 // writeWhole appends `namespace W … end W` with the whole-function translations of the targets.
 func writeWhole(b *strings.Builder, info *types.Info, files []*ast.File, targets [][2]string) {
+	writeWholeNS(b, info, files, targets, "W", "/-! ## whole functions: control skeleton, panics (`none`), calls; see GoSem.lean -/")
+}
+
+// writeLegacy appends `namespace WL`: whole functions of the legacy loader that work on the structures
+// of package array (`*array.Array32`, `*array.U16`).  Package array is type-checked from its source and
+// package trie is checked again against it (the first check of trie sees package array as empty).
+func writeLegacy(b *strings.Builder, repo string) {
+	var info *types.Info
+	var files []*ast.File
+	why := ""
+	func() {
+		defer func() {
+			if r := recover(); r != nil {
+				why = fmt.Sprint(r)
+				if ge, ok := r.(groupError); ok {
+					why = ge.msg
+				}
+			}
+		}()
+		arrFiles := parseDir(filepath.Join(repo, "array"))
+		trieFiles := parseDir(filepath.Join(repo, "trie"))
+		info = &types.Info{Types: map[ast.Expr]types.TypeAndValue{}, Defs: map[*ast.Ident]types.Object{}, Uses: map[*ast.Ident]types.Object{}, Selections: map[*ast.SelectorExpr]*types.Selection{}}
+		arrConf := types.Config{Importer: fakeImporter{}, Error: func(error) {}}
+		arrPkg, _ := arrConf.Check("github.com/openacid/slim/array", fset, arrFiles, info)
+		if arrPkg == nil {
+			fail("package array cannot be type-checked")
+		}
+		trieConf := types.Config{Importer: onePkgImporter{arrPkg}, Error: func(error) {}}
+		trieConf.Check("trie", fset, trieFiles, info)
+		files = append(trieFiles, arrFiles...)
+	}()
+	if why != "" {
+		fmt.Fprintf(b, "-- cannot translate WL: %s\n\n", strings.ReplaceAll(why, "\n", " "))
+		fmt.Fprintf(os.Stderr, "extract: funcs: cannot translate WL: %s\n", why)
+		return
+	}
+	writeWholeNS(b, info, files, wlTargets, "WL", "/-! ## whole functions of the legacy loader on the structures of package array; see GoSem.lean -/")
+}
+
+type onePkgImporter struct{ pkg *types.Package }
+
+func (i onePkgImporter) Import(path string) (*types.Package, error) {
+	if path == i.pkg.Path() {
+		return i.pkg, nil
+	}
+	return fakeImporter{}.Import(path)
+}
+
+func writeWholeNS(b *strings.Builder, info *types.Info, files []*ast.File, targets [][2]string, ns, header string) {
 	c := newWctx(info, files)
 	var notes []string
 	for _, t := range targets {
@@ -4991,14 +5291,14 @@ func writeWhole(b *strings.Builder, info *types.Info, files []*ast.File, targets
 						msg = ge.msg
 					}
 					msg = strings.ReplaceAll(msg, "\n", " ")
-					notes = append(notes, fmt.Sprintf("-- cannot translate W.%s: %s", key, msg))
-					fmt.Fprintf(os.Stderr, "extract: funcs: cannot translate W.%s: %s\n", key, msg)
+					notes = append(notes, fmt.Sprintf("-- cannot translate %s.%s: %s", ns, key, msg))
+					fmt.Fprintf(os.Stderr, "extract: funcs: cannot translate %s.%s: %s\n", ns, key, msg)
 				}
 			}()
 			c.need(t[0], t[1])
 		}()
 	}
-	b.WriteString("/-! ## whole functions: control skeleton, panics (`none`), calls; see GoSem.lean -/\nnamespace W\n\n")
+	b.WriteString(header + "\nnamespace " + ns + "\n\n")
 	for _, n := range c.sorder {
 		b.WriteString(c.structText(c.structs[n]) + "\n")
 	}
@@ -5011,7 +5311,15 @@ func writeWhole(b *strings.Builder, info *types.Info, files []*ast.File, targets
 	if len(notes) > 0 {
 		b.WriteString("\n")
 	}
-	b.WriteString("end W\n\n")
+	b.WriteString("end " + ns + "\n\n")
+}
+
+// the functions of the legacy loader on package array's structures (namespace WL)
+var wlTargets = [][2]string{
+	{"", "bmhas"},
+	{"U16", "Get"},
+	{"", "getStepBefore000510"},
+	{"", "getBM16Child"},
 }
 
 // the whole functions that are translated (callees are translated on demand, before their callers)
@@ -5029,4 +5337,5 @@ var wTargets = [][2]string{
 	{"SlimTrie", "leftMost"},
 	// the legacy loader (slimtrie_marshal.go)
 	{"", "before000512FixLeafSize"},
+	{"", "before000512InnerPrefixTobitstr"},
 }
